@@ -216,8 +216,8 @@ class _NpProxy:
     def zeros(self, shape: Any, *a: Any, **kw: Any) -> Any:
         if _STATE['active']:
             z = np.empty(shape, dtype=object)
-            z.fill(Sym(0))
-            return z
+            z.fill(0)            # plain ints: numeric code paths keep working, Sym can still be assigned
+            return _sa(z)
         return np.zeros(shape, *a, **kw)
 
     def identity(self, n: int, *a: Any, **kw: Any) -> Any:
@@ -229,7 +229,7 @@ class _NpProxy:
         if _STATE['active']:
             z = self.zeros((n, n))
             for i in range(n):
-                z[i, i] = Sym(1)
+                z[i, i] = 1
             return z
         return np.eye(n, *a, **kw)
 
@@ -259,6 +259,22 @@ class _NpProxy:
 
 
 NP = _NpProxy()
+
+
+class _NpProxyLite(_NpProxy):
+    """For library modules whose own numeric helpers (is_unitary, ...) must keep working: zeros/identity/eye stay numeric."""
+
+    def zeros(self, shape: Any, *a: Any, **kw: Any) -> Any:
+        return np.zeros(shape, *a, **kw)
+
+    def identity(self, n: int, *a: Any, **kw: Any) -> Any:
+        return np.identity(n, *a, **kw)
+
+    def eye(self, n: int, *a: Any, **kw: Any) -> Any:
+        return np.eye(n, *a, **kw)
+
+
+NP_LITE = _NpProxyLite()
 _STATE = {'active': False, 'qgl': {}}
 
 
@@ -268,14 +284,15 @@ def patch_np(*modules: Any) -> list:
     done = []
     for m in modules:
         if getattr(m, 'np', None) is np:
-            m.np = NP
+            lite = m.__name__.startswith('bqskit.qis.') or m.__name__ == 'bqskit.ir.circuit'
+            m.np = NP_LITE if lite else NP
             done.append(m)
     return done
 
 
 def unpatch_np(*modules: Any) -> None:
     for m in modules:
-        if getattr(m, 'np', None) is NP:
+        if getattr(m, 'np', None) is NP or getattr(m, 'np', None) is NP_LITE:
             m.np = np
 
 
@@ -311,12 +328,13 @@ class sym_mode:
                     raise RuntimeError('cannot infer radixes for dim %d' % dim)
                 um._radixes = tuple(r)
         UnitaryMatrix.__init__ = init      # type: ignore
+        self.prev_active = _STATE['active']
         _STATE['active'] = True
         return self
 
     def __exit__(self, *a: Any) -> None:
         self.UM.__init__ = self.orig       # type: ignore
-        _STATE['active'] = False
+        _STATE['active'] = self.prev_active
 
 
 def record_qgl() -> dict:
